@@ -25,7 +25,7 @@ use rustc_middle::mir::{
     PlaceTy, ProjectionElem, Rvalue, StatementKind, TerminatorKind,
 };
 use rustc_middle::ty::print::with_no_trimmed_paths;
-use rustc_middle::ty::{self, GenericArgsRef, Instance, Ty, TyCtxt, TypingEnv};
+use rustc_middle::ty::{self, GenericArgsRef, Instance, Ty, TyCtxt, TypeVisitableExt, TypingEnv};
 use rustc_span::{ExpnKind, Span};
 
 struct Cb;
@@ -190,9 +190,19 @@ impl<'tcx> Cx<'tcx> {
             ty::Array(inner, len) => {
                 v.push(("k", J::s("array")));
                 v.push(("inner", self.ty_j(*inner, d)));
+                let mut n = len.try_to_target_usize(self.tcx);
+                if n.is_none() && !ty.has_non_region_param() {
+                    // e.g. `[u8; BUFFER_SIZE]` in a field declaration: evaluate the length constant
+                    let env = TypingEnv::fully_monomorphized();
+                    if let Ok(nt) = self.tcx.try_normalize_erasing_regions(env, rustc_middle::ty::Unnormalized::new_wip(ty)) {
+                        if let ty::Array(_, l2) = nt.kind() {
+                            n = l2.try_to_target_usize(self.tcx);
+                        }
+                    }
+                }
                 v.push((
                     "len",
-                    match len.try_to_target_usize(self.tcx) {
+                    match n {
                         Some(n) => J::Int(n as i128),
                         None => J::Null,
                     },
